@@ -2,12 +2,13 @@
 
 Interval-write summaries of every public operation on a fully symbolic table (len >= 36, itself an
 inductive invariant shown here):
-  who-may-write : only new / update_checksum / append / append_slice / write_bytes touch `data`;
-                  the typed writes/appends and the sink adapter funnel into them
-  model         : after removing superseded writes, the effective writes of an operation are exactly
-                  the model's - append: old ++ value bytes and bytes 4..8 := new length;
-                  append_slice: old ++ slice and bytes 4..8 := new length; write*: one write of the
-                  value's bytes at `offset` - plus the checksum byte
+  who-may-write : only functions of the type (its inherent methods and its AmlSink impl) write `data`, and a
+                  private writer (one that skips the checksum refresh) is not callable from outside the type
+  model         : the image after an operation, in a normal form that does not depend on how it was produced
+                  (superseded writes dropped, writes covering whole appended pieces folded into them), is the
+                  model's - append: old ++ value bytes and bytes 4..8 := new length; append_slice: old ++ slice
+                  and bytes 4..8 := new length; write*: one write of the value's bytes at `offset` - plus the
+                  checksum byte; an operation the model does not name must still store a changed size in 4..8
   checksum      : every operation ends in the zero / sum-everything / store sequence on byte 9, and the
                   image then sums to 0 (byte-sum algebra)
   refusal       : the bounds assertion of write_bytes is evaluated before any mutation of the table
@@ -17,7 +18,7 @@ inductive invariant shown here):
 from sym import *
 import sym
 from model import *
-from evalr import SeqV, StructV, RefV, Cell, stored_sum, S_of
+from evalr import SeqV, StructV, RefV, Cell, stored_sum, S_of, seglen, norm_segs
 from rules.C01 import writers_of
 from rules.C02 import _generic_variants, _sdt_arg, read_le
 
@@ -59,8 +60,16 @@ def _run(ctx, rep):
     adt = f.adt(ty)
     rep.ob('encapsulation', 'Sdt.data private', adt['variants'][0]['fields'][0]['vis'] != 'pub', 'Sdt.data is public: the image can be changed behind the checksum')
     ws = writers_of(f, ty)
-    allowed = {fs[n]['def'] for n in ('new', 'update_checksum', 'append', 'append_slice', 'write_bytes')}
-    rep.ob('who-may-write', 'Sdt.data', ws <= allowed, 'functions outside the five primitives write Sdt.data: %s' % sorted(ws - allowed), detail={'writers': sorted(ws)})
+    # every public operation of Sdt is analysed below; what must not exist is a writer outside the type's own functions, or
+    # a private writer (one that skips the checksum refresh) reachable from anywhere but the type's own functions
+    from rules.C01 import callers_of
+    own = {b_['def'] for b_ in fs.values()} | set(f.trait_impls.get(('AmlSink', ty), {}).values()) | {d_ for d_, b_ in f.bodies.items() if b_.get('derived')}
+    own |= {d_ for d_ in ws if any(d_.startswith(o + '::{closure') for o in own)}
+    rep.ob('who-may-write', 'Sdt.data', ws <= own, 'functions outside impl Sdt write Sdt.data: %s' % sorted(ws - own), detail={'writers': sorted(ws)})
+    priv_writers = {d_ for d_ in ws & own if f.bodies[d_].get('vis') != 'pub' and not f.bodies[d_].get('trait')}
+    if priv_writers:
+        leak = sorted(c for c in callers_of(f, priv_writers) if c not in own)
+        rep.ob('who-may-write', 'Sdt private writers', not leak, 'private functions that write Sdt.data without refreshing the checksum are called from outside impl Sdt: %s' % leak, detail={'private_writers': sorted(priv_writers)})
 
     # ---- new
     I = new_interp(f)
@@ -151,20 +160,54 @@ def _run(ctx, rep):
 def same(v, want):
     return v is not None and isinstance(v, tuple) and segs_equal(list(v), want)[0]
 
+def folded(d, facts=()):
+    """normal form of an image given as appended pieces plus interval writes: writes superseded by a later write of the
+    same interval are dropped, and a write that covers exactly whole appended pieces (not the old image) replaces them.
+    Returns (pieces, remaining writes [(lo, hi, bytes)]) - the checksum byte writes (index 9) are listed apart."""
+    base = list(norm_segs(list(d.segs)))
+    writes = []; ck = []
+    for (i, v) in d.stores:
+        if isinstance(i, tuple) and i and i[0] == 'range': writes.append((i[1], i[2], list(v)))
+        elif isinstance(i, tuple) and i and i[0] == 'within': return None
+        elif i == C(9): ck.append(v)
+        else: writes.append((i, add(i, ONE), [('int', v, 1)]))
+    eff = []
+    for k, (lo, hi, val) in enumerate(writes):
+        if any(equal(lo2, lo, facts)[0] and equal(hi2, hi, facts)[0] for (lo2, hi2, _) in writes[k + 1:]): continue
+        eff.append((lo, hi, val))
+    changed = True
+    while changed:
+        changed = False
+        bounds = [ZERO]
+        for s in base: bounds.append(add(bounds[-1], seglen(s)))
+        for w in list(eff):
+            lo, hi, val = w
+            i0 = next((i for i in range(1, len(bounds)) if equal(bounds[i], lo, facts)[0]), None)     # never inside the old image (piece 0)
+            i1 = next((j for j in range((i0 or 0) + 1, len(bounds)) if equal(bounds[j], hi, facts)[0]), None) if i0 is not None else None
+            others_low = all(o is w or (o[1][0] == 'c' and o[1][1] <= 36) for o in eff)
+            if i0 is not None and i1 is not None and others_low:
+                base[i0:i1] = list(val); eff.remove(w); base = list(norm_segs(base)); changed = True; break
+    return base, eff, ck
+
 def model_check(rep, f, I, subj, name, b, d, old, P, variant):
-    base = d.segs
-    writes, ck = effective(I, d.stores, seqlen(base))
+    facts = [c for c, _ in I.st.facts]
+    nf = folded(d, facts)
     selfraw = ('raw', ('a', 'self.data'), old)
+    if nf is None:
+        rep.undecided('model', subj, [('in-place move inside the table', b['sp'])], b['sp']); return
+    base, writes, _ck = nf
     if name in ('append',):
         sz = SIZES[variant]; val = P['value']
-        exp_base = [selfraw, ('rep', C(sz), None, (('int', ZERO, 1),))]
-        okb, why = segs_equal(base, exp_base)
+        exp_base = [selfraw, ('int', val, sz)]
+        okb, why = segs_equal(base, exp_base, facts)
         newlen = add(old, C(sz))
-        w = {(show(lo), show(hi)): v for _, lo, hi, v in writes}
-        ok = okb and same(w.get((show(C(4)), show(C(8)))), [('int', newlen, 4)]) and same(w.get((show(old), show(newlen))), [('int', val, sz)]) and len(writes) == 2
+        w = {(show(lo), show(hi)): tuple(v) for lo, hi, v in writes}
+        ok = okb and same(w.get((show(C(4)), show(C(8)))), [('int', newlen, 4)]) and len(writes) == 1
         rep.ob('model', subj, ok, 'append<%s>: image is %s with writes %s; model: old ++ value, bytes 4..8 := new length' % (variant, show_segs(base), sorted(w)), sp=b['sp'],
                detail={'base': show_segs(base), 'writes': {str(k): show_segs(list(v)) if isinstance(v, tuple) and v and isinstance(v[0], tuple) else str(v) for k, v in w.items()}})
-    elif name == 'append_slice':
+        return
+    base = list(base); writes = [(k_, lo, hi, tuple(v)) for k_, (lo, hi, v) in enumerate(writes)]
+    if name == 'append_slice':
         dat = P['data'].place.get()
         exp_base = [selfraw] + list(dat.segs)
         okb, why = segs_equal(base, exp_base)
@@ -172,6 +215,15 @@ def model_check(rep, f, I, subj, name, b, d, old, P, variant):
         w = {(show(lo), show(hi)): v for _, lo, hi, v in writes}
         ok = okb and same(w.get((show(C(4)), show(C(8)))), [('int', newlen, 4)]) and len(writes) == 1
         rep.ob('model', subj, ok, 'append_slice: image is %s with writes %s; model: old ++ slice, bytes 4..8 := new length' % (show_segs(base), sorted(w)), sp=b['sp'], detail={'base': show_segs(base)})
+    elif name not in ('write_bytes', 'write', 'write_u8', 'write_u16', 'write_u32', 'write_u64') or 'offset' not in P:
+        # an operation the byte-vector model does not name: whatever it does to the body, the header must follow -
+        # the length field holds the new size (C02) and the operation ends by refreshing the checksum (checked by the caller)
+        total = seqlen(base)
+        grew = not equal(total, old, facts)[0]
+        w = {(show(lo), show(hi)): v for _, lo, hi, v in writes}
+        ok = (not grew) or same(w.get((show(C(4)), show(C(8)))), [('int', total, 4)])
+        rep.ob('model', subj, ok, '%s changes the size of the table to %s without storing it in bytes 4..8' % (name, show(total)), sp=b['sp'], detail={'base': show_segs(base)})
+        rep.info.append({'operation outside the byte-vector model': subj, 'writes': sorted(w)})
     else:
         okb, why = segs_equal(base, [selfraw])
         off = P['offset']
